@@ -54,6 +54,25 @@ func init() {
 		NFact("default_checksum_type", func() *big.Int { return loadPkg("internal/rsm").Const("defaultChecksumType") }),
 		NFact("compression_none", func() *big.Int { return loadPkg("raftpb").Const("NoCompression") }),
 		NFact("compression_snappy", func() *big.Int { return loadPkg("raftpb").Const("Snappy") }),
+		// settings.Soft default: a size mismatch in pb.Snapshot.Validate panics
+		{Name: "panic_on_size_mismatch", Gen: func() string {
+			p := loadPkg("internal/settings")
+			var val string
+			ast.Inspect(p.Func("", "getDefaultSoftSettings").Body, func(n ast.Node) bool {
+				if kv, ok := n.(*ast.KeyValueExpr); ok {
+					if id, ok := kv.Key.(*ast.Ident); ok && id.Name == "PanicOnSizeMismatch" {
+						if v, ok := kv.Value.(*ast.Ident); ok {
+							val = v.Name
+						}
+					}
+				}
+				return true
+			})
+			if val != "true" && val != "false" {
+				panic("PanicOnSizeMismatch default not found")
+			}
+			return fmt.Sprintf("Definition panic_on_size_mismatch : bool := %s.\n", val)
+		}},
 		NFact("lru_max_session_count", func() *big.Int {
 			p := loadPkg("internal/settings")
 			return c14KeyedLit(p, p.Func("", "getDefaultHardSettings"), "LRUMaxSessionCount")
